@@ -52,6 +52,10 @@ class NamesDriver:
             if op == "anon":
                 if c == "unit":
                     ctx["obj"][k] = ctx["obj"]["u1"] ** 2
+                elif c == "dimension" and k == "d2":
+                    # the exponents the NEXT fundamental dimension will be given, as an anonymous dimension
+                    w = len(m.Number.exponents)
+                    ctx["obj"][k] = m.Dimension(tuple([0] * (w - 1) + [1]))
                 elif c == "dimension":
                     ctx["obj"][k] = m.Length ** 5 / m.Time ** 7       # nobody named this one
                 else:
